@@ -328,3 +328,133 @@ SRC_KINDS = {"sax": ["mem", "memadopt", "file", "missing", "w4dom", "w4str"], "s
 SRC_DOCS = [b'<?xml version="1.0" encoding="UTF-8"?><r a="1"><b>caf\xc3\xa9</b><!-- c --></r>',
             b'<r><b>plain ascii, no declaration</b></r>',
             b'<?xml version="1.0" encoding="ISO-8859-1"?><r>\xe9</r>']
+
+
+# ---------------------------------------------------------------------------------------------------------------
+# round-3 additions: error recovery of the reader stack in DTDs, DOM heap growth paths, grammar ownership
+# ---------------------------------------------------------------------------------------------------------------
+def pe_recovery_docs(rng, nrandom):
+    """DTDs whose parameter entities make the reader stack unwind during error recovery.  returns list of dict(doc, ext, tag)"""
+    out = []
+
+    def add(tag, doc, ext=None):
+        out.append(dict(doc=doc if isinstance(doc, bytes) else doc.encode(), ext=ext or {}, tag=tag))
+    X = '<?xml version="1.0"?>'
+    # PE whose replacement text closes the internal subset (']' / ']>' / ']><r/>' propagated out of the DOCTYPE)
+    for k, close in enumerate(["]", "]>", "]><r/>", " ] ", "<!ELEMENT r ANY>]>", "]]>"]):
+        add("pe-closes-subset%d" % k, X + '<!DOCTYPE r [<!ELEMENT q EMPTY><!ENTITY %% close "%s">%%close;<!ELEMENT z EMPTY>]><r/>' % close)
+        add("pe2-closes-subset%d" % k, X + '<!DOCTYPE r [<!ENTITY %% c1 "%s"><!ENTITY %% c2 "<!ELEMENT q EMPTY>&#37;c1;">%%c2; ]><r/>' % close)
+        add("extpe-closes-subset%d" % k, X + '<!DOCTYPE r [<!ENTITY % x SYSTEM "x.ent">%x;<!ELEMENT z EMPTY>]><r/>',
+            {"x.ent": ("<!ELEMENT q EMPTY>%s" % close).encode()})
+    # '>' / ']]>' of a conditional section inside a PE (external subset and external PE)
+    for k, (sect, end) in enumerate([("INCLUDE", "]]>"), ("IGNORE", "]]>"), ("INCLUDE", "]]"), ("INCLUDE", ">"), ("IGNORE", "]"),
+                                     ("%kw;", "]]>")]):
+        dtd = '<!ENTITY %% kw "INCLUDE"><!ENTITY %% end "%s"><!ELEMENT r ANY><![%s[<!ELEMENT q EMPTY>%%end;<!ELEMENT z EMPTY>' % (end, sect)
+        add("cond-end-in-pe%d" % k, X + '<!DOCTYPE r SYSTEM "c.dtd"><r/>', {"c.dtd": dtd.encode()})
+        add("cond-end-in-nested-pe%d" % k, X + '<!DOCTYPE r SYSTEM "c.dtd"><r/>',
+            {"c.dtd": ('<!ENTITY %% e1 "%s"><!ENTITY %% end "&#37;e1;"><!ELEMENT r ANY><![INCLUDE[<![%s[<!ELEMENT q EMPTY>%%end;]]>' % (end, "INCLUDE" if "%" in sect else sect)).encode()})
+        add("cond-unterminated%d" % k, X + '<!DOCTYPE r [<!ENTITY % x SYSTEM "x.ent">%x;]><r/>',
+            {"x.ent": ("<![%s[<!ELEMENT q EMPTY><![INCLUDE[<!ELEMENT z EMPTY>%s" % ("INCLUDE" if "%" in sect else sect, end[:1])).encode()})
+    # fatal error inside an internal PE that is referenced from an external PE (and deeper nestings)
+    for k, bad in enumerate(["<!ELEMENT r (a,", "<!ATTLIST r x CDATA ", "<!ENTITY bad 'x", "<!-- never closed", "<!ELEMENT r (a|b,c)>", "<?pi never closed",
+                             "<!NOTATION n SYSTEM", "%undefined;", "<!ELEMENT 1bad ANY>", "<!ENTITY % p2 '<' > &#37;p2;"]):
+        esc = bad.replace('"', "&#34;")
+        add("err-in-internal-pe-from-external%d" % k,
+            X + '<!DOCTYPE r [<!ENTITY %% inner "%s"><!ENTITY %% outer SYSTEM "outer.ent">%%outer;<!ELEMENT z EMPTY>]><r/>' % esc,
+            {"outer.ent": b"<!ELEMENT q EMPTY>%inner;<!ELEMENT w EMPTY>"})
+        add("err-in-internal-pe-3deep%d" % k,
+            X + '<!DOCTYPE r [<!ENTITY %% inner "%s"><!ENTITY %% mid "<!ELEMENT m EMPTY>&#37;inner;"><!ENTITY %% outer SYSTEM "outer.ent">%%outer;]><r/>' % esc,
+            {"outer.ent": b"<!ENTITY % o2 SYSTEM 'o2.ent'>%o2;<!ELEMENT w EMPTY>", "o2.ent": b"<!ELEMENT q EMPTY>%mid;"})
+        add("err-in-extsubset-pe%d" % k, X + '<!DOCTYPE r SYSTEM "e.dtd" [<!ELEMENT r ANY>]><r/>',
+            {"e.dtd": ('<!ENTITY %% inner "%s"><!ELEMENT q EMPTY>%%inner;<!ELEMENT w EMPTY>' % esc).encode()})
+        add("err-in-internal-pe-only%d" % k, X + '<!DOCTYPE r [<!ENTITY %% inner "%s"><!ENTITY %% two "&#37;inner;">%%two;<!ELEMENT z EMPTY>]><r/>' % esc)
+    # declarations that start in one PE and end in another / outside (partial markup in PE), general entity text with markup errors
+    add("decl-spans-pes", X + '<!DOCTYPE r [<!ENTITY % a "<!ATTLIST r x CDATA "><!ENTITY % b "#IMPLIED>">%a;%b;<!ELEMENT r ANY>]><r/>')
+    add("decl-ends-outside-pe", X + '<!DOCTYPE r [<!ENTITY % a "<!ELEMENT r (#PCDATA">%a;)><!ELEMENT z EMPTY>]><r/>')
+    add("group-spans-pes", X + '<!DOCTYPE r SYSTEM "g.dtd"><r/>', {"g.dtd": b'<!ENTITY % open "(a, (b"><!ENTITY % cl ")*)"><!ELEMENT r %open;|c%cl;><!ELEMENT a EMPTY>'})
+    add("pe-recursion", X + '<!DOCTYPE r [<!ENTITY % a "&#37;b;"><!ENTITY % b "&#37;a;">%a;]><r/>')
+    add("extpe-recursion", X + '<!DOCTYPE r [<!ENTITY % a SYSTEM "a.ent">%a;]><r/>', {"a.ent": b"<!ELEMENT q EMPTY>%a;"})
+    add("ge-with-unbalanced-markup", X + '<!DOCTYPE r [<!ENTITY g "<a>text"><!ENTITY g2 "&g;</a>"><!ELEMENT r ANY>]><r>&g2;&g;</r>')
+    add("extge-ends-in-markup", X + '<!DOCTYPE r [<!ENTITY g SYSTEM "g.xml"><!ELEMENT r ANY>]><r>&g;<q/></r>', {"g.xml": b"<a><b>text</b"})
+    # random: cut the reference DTD into nested parameter entities at random places, optionally truncate / damage a piece
+    for i in range(nrandom):
+        text = DTD_DECLS.replace("%pe;", "").replace('"', "'")
+        cuts = sorted(rng.sample(range(1, len(text) - 1), rng.randrange(1, 4)))
+        pieces = [text[a:b] for a, b in zip([0] + cuts, cuts + [len(text)])]
+        if rng.random() < 0.6:
+            j = rng.randrange(len(pieces))
+            pieces[j] = rng.choice([pieces[j][:len(pieces[j]) // 2], pieces[j] + "]", pieces[j] + "]>", "<" + pieces[j], pieces[j].replace(">", "", 1)])
+        decls, ext = [], {}
+        prev = None
+        for j, pc in enumerate(reversed(pieces)):
+            body = pc.replace("%", "&#37;").replace('"', "&#34;").replace("&e", "&#38;e")
+            if prev is not None and rng.random() < 0.5:
+                body += "&#37;%s;" % prev                      # nested reference
+            name = "p%d" % j
+            if rng.random() < 0.3:
+                ext["%s.ent" % name] = (pc + ("%%%s;" % prev if prev is not None and body.endswith(";") else "")).encode()
+                decls.append('<!ENTITY %% %s SYSTEM "%s.ent">' % (name, name))
+            else:
+                decls.append('<!ENTITY %% %s "%s">' % (name, body))
+            prev = name
+        refs = "".join("%%p%d;" % j for j in reversed(range(len(pieces)))) if rng.random() < 0.5 else "%%%s;" % prev
+        doc = X + "<!DOCTYPE r [%s%s]>%s" % ("".join(decls), refs, dtd_instance(rng, True))
+        add("random-pe-split%d" % i, doc, ext)
+    return out
+
+
+def domheap_docs():
+    """documents whose text nodes / attribute values / CDATA are delivered in pieces and grown in place (use with ents=0), including
+    text above the scanner's flush size; returns list of dict(doc, ext, tag)"""
+    out = []
+    ents = '<!ENTITY e "eeeeeeeeee"><!ENTITY big "@@REP(b,3000)@@"><!ENTITY nest "n&e;n&e;n"><!ENTITY x SYSTEM "x.xml">'
+    head = '<?xml version="1.0"?><!DOCTYPE r [%s<!ELEMENT r ANY><!ELEMENT t ANY><!ATTLIST t a CDATA #IMPLIED>]>' % ents
+    ext = {"x.xml": b"external @@REP(x,500)@@ text"}
+
+    def add(tag, body):
+        out.append(dict(doc=(head + "<r>" + body + "</r>").encode(), ext=ext, tag=tag))
+    for n in (0, 50, 112, 113, 114, 127, 128, 200, 1000, 70000):
+        for reps in (1, 3, 10):
+            add("text%d-x%d" % (n, reps), "<t>@@REP(T,%d)@@%s</t>" % (n, "&e;" * reps))
+    add("many-growing-nodes", "".join("<t>@@REP(T,%d)@@&e;&big;&e;tail&nest;</t>" % (120 + 37 * i) for i in range(24)))
+    add("interleaved-sizes", "".join("<t>@@REP(a,%d)@@&e;@@REP(b,%d)@@&big;&x;</t><t>short&e;</t>" % (300 * (i % 5), 5000 * (i % 3)) for i in range(12)))
+    add("text-above-flush-size", "<t>@@REP(M,1100000)@@&e;tail</t><t>@@REP(N,2200000)@@</t><t>after&big;</t>")
+    add("several-large-blocks", "".join("<t>@@REP(L,%d)@@&e;&e;</t>" % (300000 + 100000 * i) for i in range(5)) + "<t>small&e;</t>")
+    add("attr-values", "".join('<t a="@@REP(A,%d)@@&e;&big;&e;">v</t>' % n for n in (0, 113, 114, 300, 5000, 70000)))
+    add("attr-above-flush-size", '<t a="@@REP(A,1100000)@@&e;"/><t a="&big;&big;"/>')
+    add("cdata-pieces", "".join("<t>@@REP(c,%d)@@<![CDATA[@@REP(d,%d)@@]]>&e;<![CDATA[x]]>&big;</t>" % (n, n * 2 + 1) for n in (0, 113, 114, 300, 70000)))
+    add("cdata-above-flush-size", "<t><![CDATA[@@REP(C,1100000)@@]]>&e;</t>")
+    add("charrefs-and-entities", "<t>@@REP(T,200)@@&#65;&#x42;&e;&#67;&big;&amp;&e;&lt;</t>" * 6)
+    add("external-entity-in-text", "<t>@@REP(T,200)@@&x;&e;&x;</t>" * 4)
+    add("comments-pis-between", "<t>@@REP(T,200)@@&e;<!-- c -->&e;@@REP(U,300)@@<?p d?>&big;</t>" * 4)
+    return out
+
+
+def gramown_cases():
+    """grammar ownership cross product: {cacheGrammarFromParse} x {application pool absent/unlocked/locked} x {useCachedGrammarInParse} x
+    {external DTD subset, internal subset only, schema} x {document ends normally / fatally}; the handler-exception endings and the
+    reuse / second parse / deletion come from the 'case' machinery (mode=reuse and mode=fresh).  returns list of dict(doc, ext, kv, tag)"""
+    dtd = b"<!ELEMENT r (a*)><!ELEMENT a (#PCDATA)><!ATTLIST a x CDATA #IMPLIED>"
+    docs = {
+        "extdtd": (b'<?xml version="1.0"?><!DOCTYPE r SYSTEM "ext.dtd"><r><a x="1">t</a><a>u</a></r>', {"ext.dtd": dtd}, dict(sch=0, ns=1)),
+        "extdtd+int": (b'<?xml version="1.0"?><!DOCTYPE r SYSTEM "ext.dtd" [<!ENTITY e "v">]><r><a>&e;</a></r>', {"ext.dtd": dtd}, dict(sch=0, ns=0)),
+        "intdtd": (b'<?xml version="1.0"?><!DOCTYPE r [' + dtd + b']><r><a>t</a></r>', {}, dict(sch=0, ns=1)),
+        "schema": (('<?xml version="1.0"?>' + xsd_instance(__import__("random").Random(5), True)).encode(), {"s.xsd": XSD.encode()}, dict(sch=1, ns=1)),
+        "dtd+schema": (('<?xml version="1.0"?><!DOCTYPE root SYSTEM "root.dtd">' + xsd_instance(__import__("random").Random(6), True)).encode(),
+                       {"s.xsd": XSD.encode(), "root.dtd": ROOT_DTD}, dict(sch=1, ns=1)),
+    }
+    out = []
+    for dk, (doc, ext, feat) in docs.items():
+        for ending in ("normal", "fatal", "fatal-early"):
+            d = doc
+            if ending == "fatal":
+                d = doc[:-4] + b"<<"                     # damage after the DOCTYPE / in the content
+            elif ending == "fatal-early":
+                d = doc.replace(b"<?xml version=\"1.0\"?>", b"<?xml version=\"1.0\"?><!-- -- -->", 1)   # fatal before the DOCTYPE
+            for cache in (0, 1):
+                for usec in (0, 1):
+                    for pool in ("none", "open", "locked"):
+                        kv = dict(feat)
+                        kv.update(cache=cache, usec=usec, pool=0 if pool == "none" else 1, lock=1 if pool == "locked" else 0)
+                        out.append(dict(doc=d, ext=ext, kv=kv, tag="%s-%s-c%du%d-%s" % (dk, ending, cache, usec, pool)))
+    return out
